@@ -13,7 +13,7 @@ PROPS = {
     "C05": {
         "harness": "walq", "level": "exploration", "per_proc": 250,
         "quick": {"runs": 40000, "budget_s": 240},
-        "thorough": {"runs": 400000, "budget_s": 1500, "shrink_runs": 600},
+        "thorough": {"runs": 4000000, "budget_s": 1500, "shrink_runs": 600},
         "rule": "Each run: 1-3 appender tasks put self-describing messages (8..512 bytes, page size knob 512 so data pages roll over, 8 index entries per index page) in 1-4 phases under a seeded schedule; a phase ends with nothing, close+reopen, or a process death placed by the tape at a function entry of pkg/queue or pkg/queue/page (between the individual mapped-page stores of an append) or while idle; optional queue ack + GC; a concurrent reader; a final append after the last reopen. Oracle: ledger sequence->message.",
         "fault_kinds": ["crash-in-append", "crash-idle", "close-reopen"],
         "real": ["pkg/queue (queue, page factory, mapped pages on tmpfs, real mmap)", "simrt scheduler decides every interleaving"],
@@ -26,7 +26,7 @@ PROPS = {
     "C06": {
         "harness": "walq", "level": "exploration", "per_proc": 250,
         "quick": {"runs": 40000, "budget_s": 240},
-        "thorough": {"runs": 400000, "budget_s": 1500, "shrink_runs": 600},
+        "thorough": {"runs": 4000000, "budget_s": 1500, "shrink_runs": 600},
         "rule": "Two run shapes. Sequential histories (5-40 operations over 1-3 groups: put / create-group / consume / ack inside, below and above the window / set-consumed / sync / gc / stop-group / reopen) checked after every operation against a reference model of (appended, queue ack, per-group consumed/ack) plus the invariants of the statement and readability of every sequence above the queue ack. Concurrent runs: appender, consumer, acker and a Sync/GC task on one group under a seeded schedule, positions monitored at every scheduling step, each Ack judged against the window bounds observed around the call; when the tasks have come to rest the queue is closed and reopened and appended / consumed / acknowledged must be what they were in memory.",
         "fault_kinds": ["close-reopen"],
         "real": ["pkg/queue (fan-out queue, consumer groups, queue, page factory, mapped pages on tmpfs)"],
@@ -41,7 +41,7 @@ PROPS = {
 PROPS["C19"] = {
     "harness": "pipe", "level": "exploration", "per_proc": 150,
     "quick": {"runs": 30000, "budget_s": 240},
-    "thorough": {"runs": 250000, "budget_s": 1500, "shrink_runs": 500},
+    "thorough": {"runs": 3000000, "budget_s": 1500, "shrink_runs": 500},
     "rule": "Each run: a generated stage tree (1-10 stages, fan-out <=4, each stage inline or on the real worker pool with 1-3 workers, outcome ok / error / panic / panic while planning, the plan of a stage a tree of 1-3 real plan nodes (root operator with children, empty root with children as in the shard scan and data load plans, or a chain) whose operator at a chosen position carries the outcome, 0-3 units of simulated work) executed by the real pipeline under a seeded schedule (every completion order of concurrently running stages is a schedule). Oracle: exactly-once completion ledger, error propagation, completion only after every started stage finished (when nothing panics), completion within 60 simulated seconds (simulated time advances only when every task is blocked, so this is starvation-free).",
     "fault_kinds": ["stage-error", "stage-panic", "plan-panic"],
     "real": ["query/pipeline.go, pipeline_state_matchine.go", "query/stage/base_stage.go Execute/execute (through the verif hook stage)", "internal/concurrent worker pool (dispatcher, workers, panic handler)", "query/tracker stage tracker"],
@@ -55,7 +55,7 @@ PROPS["C19"] = {
 PROPS["C01"] = {
     "harness": "kvs", "level": "fault_enumeration", "per_proc": 12, "proc_timeout": 900,
     "quick": {"runs": 1500, "budget_s": 300},
-    "thorough": {"runs": 6000, "budget_s": 1700, "shrink_runs": 300},
+    "thorough": {"runs": 15000, "budget_s": 1700, "shrink_runs": 300},
     "rule": "Each generated history (1-2 families, or - a third of the histories - 3-4 families with parallel flushes: 2-3 flusher tasks on different families of the one store at the same time under a seeded schedule, sharing the file number allocator, manifest and version set; after a crash every family on its own must show its state before or after the flush that was in flight on it; 4-12 operations out of flush [1-6 keys, Add and StreamWriter mixed, value padding 0..3000 bytes so the 4 KiB writer buffer flushes mid-table, optional per-leader sequence, sequence-only flush], Family.Compact, background compaction tick, rollup bookkeeping against a second store, clean close+reopen) is first run without faults (reference-model equality after every operation). Then it is re-executed once per file-system seam operation k=1..N of that fault-free run (quick tier: at most 60 evenly spread points with a per-history random offset; thorough: all N) with the process killed right before operation k; the store is reopened by a fresh incarnation and judged; thorough chains up to two more deaths a few operations later (inside recovery). evaluations = executions (fault-free + crashing). Seam operations: create/write/sync/flush/close of manifest and table writers, write-file and rename of CURRENT, OPTIONS rewrite, mkdir, remove, map/unmap.",
     "fault_kinds": ["crash@write", "crash@sync", "crash@create", "crash@close", "crash@rename", "crash@writefile", "crash@writetoml", "crash@remove", "crash@mkdir", "close-reopen"],
     "real": ["kv (store, store manager, family, flusher, compact job, rollup bookkeeping)", "kv/version (version set, manifest, edit logs, recovery)", "kv/table (builder, mmap reader, cache)", "pkg/bufioutil"],
@@ -68,7 +68,7 @@ PROPS["C01"] = {
 PROPS["C02"] = {
     "harness": "kvs", "level": "exploration", "per_proc": 100,
     "quick": {"runs": 40000, "budget_s": 300},
-    "thorough": {"runs": 400000, "budget_s": 1700, "shrink_runs": 400},
+    "thorough": {"runs": 1500000, "budget_s": 1700, "shrink_runs": 400},
     "rule": "Each run: one family preloaded with 0-3 files; 1-2 flusher tasks (1-4 commits each), 1-3 reader tasks (take a snapshot, read everything through FindReaders+Get / Load / file iteration, hold it across yields or simulated sleeps up to 5 s, re-read, close) and a maintenance task (Family.Compact, background compaction tick incl. reader-cache cleanup, ForceRollup, clock jumps up to 4000 s past the cache TTL knob 10 ms / 1 s / 1 h), all under a seeded schedule; optionally every flushed file is registered for a rollup that never happens. Oracles: snapshot content stable and commit-atomic, visibility bounds by event order, delete/unmap seam monitor against files of held snapshots / unfinished writers / pending rollup files, reads with SetPanicOnFault.",
     "fault_kinds": ["clock-jump"],
     "real": ["kv (store, family, flusher, compaction job, obsolete-file deletion)", "kv/version (family version, version refcounts, snapshot)", "kv/table (reader cache, mmap readers)"],
@@ -82,7 +82,7 @@ PROPS["C02"] = {
 PROPS["C08"] = {
     "harness": "repl", "level": "exploration", "per_proc": 60, "proc_timeout": 900,
     "quick": {"runs": 30000, "budget_s": 300},
-    "thorough": {"runs": 120000, "budget_s": 1700, "shrink_runs": 200, "shrink_timeout": 600},
+    "thorough": {"runs": 300000, "budget_s": 1700, "shrink_runs": 200, "shrink_timeout": 600},
     "rule": "Each run: a leader node and a follower node, each a real WriteAheadLogManager on its own directory; the leader's partition replicates through its real local and remote replicators, the follower answers through the real storage RPC ReplicaHandler; unary calls and the bidirectional stream are simulated (1 ms latency per hop). 4-17 operations: leader appends of unique messages, waits, follower restart (clean / process death / death + log directory lost), follower offline/online with (duplicate) notifications, leader Sync+GC, leader restart (clean / death / death + an older image of its log restored = lost tail; also as a macro 'the leader loses exactly the last 1-2 messages the follower already has'); the follower's log append fails with an I/O error at tape-chosen calls; in addition the tape breaks streams before delivery, after the request was delivered (stale delivery by the dead stream's handler), fails stream creation and unary calls before/after they took effect. After the last fault: settle, then two more appends must reach the follower at the leader's positions within 120 simulated seconds. In half of the runs the follower's stream handlers stall for 1-12 simulated ms at tape-chosen function entries of the replica / queue packages and lock acquisitions (slow disk), so that the handler of a broken stream and its successor overlap inside ReplicaLog.",
     "fault_kinds": ["follower-put-fails", "break-before-delivery", "break-after-request", "stale-delivery", "stream-open-fail", "unary-fail-before", "unary-fail-after", "follower-restart-0", "follower-restart-1", "follower-log-lost", "follower-offline", "duplicate-online-notification", "leader-gc", "leader-restart-0", "leader-restart-1", "leader-tail-lost", "follower-stall"],
     "real": ["replica (wal manager, wal, partition, local replicator, remote replicator incl. handshake)", "app/storage/rpc ReplicaHandler", "pkg/queue (fan-out queue, consumer groups, pages on tmpfs)"],
@@ -96,7 +96,7 @@ PROPS["C08"] = {
 PROPS["C18"] = {
     "harness": "master", "level": "exploration", "per_proc": 150,
     "quick": {"runs": 40000, "budget_s": 300},
-    "thorough": {"runs": 300000, "budget_s": 1500, "shrink_runs": 400},
+    "thorough": {"runs": 3000000, "budget_s": 1500, "shrink_runs": 400},
     "rule": "Each run: 1-7 storage nodes, some registered before the master starts; the real master StateManager with its real discovery state machines watches a simulated state repository (ordered watch stream per prefix, each event delayed 0..300 simulated ms by the tape). 5-40 operations: node up / down / flap, create database (1-12 shards, replica factor 1-3), grow shards, drop database, watch re-synchronisation (current state delivered again = duplicate events), bursts of 2-4 operations issued without waiting. After every operation the run waits (simulated time) until all watch events are drained and checks the persisted assignment and GetStorageState().",
     "fault_kinds": ["delayed-watch-event", "watch-resync-duplicates"],
     "real": ["coordinator/master (state manager, shard assignment, leader elector, storage cluster, state machine factory)", "coordinator/discovery (state machines, discovery)", "models (storage state, shard assignment)"],
@@ -110,7 +110,7 @@ PROPS["C18"] = {
 PROPS["C09"] = {
     "harness": "ids", "level": "exploration", "per_proc": 100, "proc_timeout": 900,
     "quick": {"runs": 40000, "budget_s": 300},
-    "thorough": {"runs": 200000, "budget_s": 1700, "shrink_runs": 300, "shrink_timeout": 600},
+    "thorough": {"runs": 1000000, "budget_s": 1700, "shrink_runs": 300, "shrink_timeout": 600},
     "rule": "Each run: one real MetricMetaDatabase shared by a metadata-worker task (metric ids, field ids) and 1-2 shard index-worker tasks, each with its own real MetricIndexDatabase (metric id, series id and through it tag key / tag value ids) - the callers tsdb/memdb has - over a small name universe (2 namespaces x 4 metrics x 8 tag sets x 3 fields) under a seeded schedule; 1-3 phases of 2-11 calls with PrepareFlush-in-worker + Flush-in-own-task for the meta and index databases (meta flushes serialised as the flush checker does), from the second phase on also an adversarial schedule ('suspend': a caller is held at a chosen yield point of its get-or-create while another caller creates the same metric name and a complete metadata (+ index) flush cycle passes, then continues, then the name is asked again); ending with nothing, flush, flush+close+reopen, or process death (at a file-system seam operation of the kv stores, at entry of the sequence sync / flush functions, or idle). Oracle: ledger name<->ID per kind and scope; after restart get-only lookups (GetMetricID, GetSchema, CollectTagValues, postings) decide what survived, everything that survived must have its old ID, after a clean reopen everything must have survived, and new names must not receive IDs that surviving dictionaries or postings use for another name. Index flushes follow shard.FlushIndex: the stores are switched by the shard's own worker between two calls, one flush of a shard at a time (a request while one runs is dropped); metadata flushes are serialised like the flush checker does.",
     "fault_kinds": ["crash@write", "crash@yield", "crash-idle", "close-reopen", "caller-suspended"],
     "real": ["index (kv store, metric meta database, metric index database, schema store, sequence)", "index/v1 flushers/readers/mergers, index/model trie buckets", "kv stores underneath", "hashicorp/golang-lru expirable cache (rewritten copy)"],
@@ -126,7 +126,7 @@ NODE_STUB = ["rpc transport: an in-process loopback that hands TaskRequest/TaskR
 PROPS["C10"] = {
     "harness": "node", "level": "exploration", "per_proc": 60, "proc_timeout": 900,
     "quick": {"runs": 25000, "budget_s": 300},
-    "thorough": {"runs": 120000, "budget_s": 1700, "shrink_runs": 200, "shrink_timeout": 600},
+    "thorough": {"runs": 700000, "budget_s": 1700, "shrink_runs": 200, "shrink_timeout": 600},
     "rule": "Each run: a real tsdb engine with 1-2 shards; a universe of 2-11 series (tag id always present and unique, host out of 4 values incl. a multi-byte one and values sharing prefixes, optional zone and app) spread over the shards; 7-15 operations out of write (1-12 points), the flush sequence of the flush checker (metadata -> shard index -> family data), kv compaction of every store, a jump of the metric's series id sequence past the next roaring container boundary (hook; series ids end up in up to three containers), query, and query running concurrently with the flush sequence under a seeded schedule (every second flush is a job of the engine's real flush checker, which also garbage collects write buffers; a query that finishes while the flush still runs is asked again). Every query carries a generated tag condition (depth <= 3 over =, !=, in, not in, like prefix/suffix/contains/exact, not like, =~, !~, and/or, parentheses) and groups by id,host through the real MetricDataSearch -> leaf pipeline. Oracle: the condition evaluated by brute force on the tags of every series written before the query started (missing key = false, also for the negated forms, as the statement's 'not = series having the key minus matches'); the set of returned groups and their group-key values must equal it exactly. A condition naming a tag key that no written series carries is expected to be rejected ('tag key not found').",
     "fault_kinds": ["flush", "compact"],
     "real": NODE_REAL, "stub": NODE_STUB,
@@ -138,7 +138,7 @@ PROPS["C10"] = {
 PROPS["C11"] = {
     "harness": "node", "level": "exploration", "per_proc": 60, "proc_timeout": 900,
     "quick": {"runs": 25000, "budget_s": 300},
-    "thorough": {"runs": 120000, "budget_s": 1700, "shrink_runs": 200, "shrink_timeout": 600},
+    "thorough": {"runs": 500000, "budget_s": 1700, "shrink_runs": 200, "shrink_timeout": 600},
     "rule": "Each run: as C10 plus engine close+reopen; in half of the runs a write may carry only the first one or two fields, so that files with a single-field block, files with other field sets and memory meet in queries and compactions; otherwise points carry a random subset of five fields (sum, min, max, last, first), timestamps in the first 10 minutes of one or two hours (one or two data families per shard, sharing the shard's time series index), slot-aligned or not, duplicates and out-of-order slots inside and outside the 64-slot write window. Queries select one field - a third of those on the sum field through sum(f), min(f) or max(f) - over a random or whole-hour time range (or spanning both hours), optional tag condition (depth <= 1), group by none / host / id / id,host, interval none / 20 s / 30 s / 60 s. Oracle: a ledger of every accepted point; the reference keeps points whose 10 s storage slot lies in the truncated range, buckets them from the truncated range start, combines one bucket by the field's aggregate (sum/min/max exactly; last/first must be one of the written values) - compared group by group and slot by slot, including 'no value where nothing was written'. A group without any value of the selected field may be returned (series are selected before the field is read).",
     "fault_kinds": ["flush", "compact", "close-reopen"],
     "real": NODE_REAL, "stub": NODE_STUB,
@@ -151,7 +151,7 @@ PROPS["C11"] = {
 PROPS["C12"] = {
     "harness": "node", "level": "exploration", "per_proc": 40, "proc_timeout": 900,
     "quick": {"runs": 12000, "budget_s": 300},
-    "thorough": {"runs": 60000, "budget_s": 1700, "shrink_runs": 150, "shrink_timeout": 600},
+    "thorough": {"runs": 300000, "budget_s": 1700, "shrink_runs": 150, "shrink_timeout": 600},
     "rule": "Each run: one real engine holding the same generated points twice - database A with one shard, database K with 2-4 shards over which the series are spread; 4-9 operations out of write (to both), flush sequence (both), query. Every query (generator of C11: field, time range, interval, optional tag condition, group by none/host/id/id,host) is executed under 3-5 physical layouts: A on one leaf; K with all shards on one leaf; K with the shards partitioned over 2..k leaf nodes (leaves whose shards hold no matching data occur); the partitioned layout plus one more leaf node that has never seen the metric (it answers from a database that never received a point); and for group-by queries the partitioned layout and A through an intermediate node (real IntermediateTaskProcessor) between root and leaves. Each response travels in its own task with a tape-chosen transit time (0/0/1/3 ms), so arrival order and the interleaving of arrivals with leaves that are still working are seeded. Oracle: every answer must equal the reference model of C11, all answers must have the same outcome (error or not) and equal groups/slots/values (values of last/first fields only when one group is one series).",
     "fault_kinds": ["flush"],
     "real": NODE_REAL, "stub": NODE_STUB,
@@ -164,7 +164,7 @@ PROPS["C12"] = {
 PROPS["C07"] = {
     "harness": "node", "level": "exploration", "per_proc": 40, "proc_timeout": 900,
     "quick": {"runs": 2500, "budget_s": 300},
-    "thorough": {"runs": 80000, "budget_s": 1700, "shrink_runs": 150, "shrink_timeout": 600},
+    "thorough": {"runs": 60000, "budget_s": 1700, "shrink_runs": 150, "shrink_timeout": 600},
     "rule": "Each run: a storage node without its network - real tsdb engine (one database, one shard, one family), the real write-ahead-log manager with the partition of this node as leader, its real local replicator loop and the engine's real flush checker - through up to 6 process incarnations on one directory. 9-20 operations out of: append 1-3 messages of 1-3 rows to the log (partition.WriteLog, as the write handler does), request a flush job (database.Flush: metadata -> index -> family data, running concurrently with replication), request and wait, log housekeeping (Sync + GC), let background work run, read back, clean shutdown in the runtime's order (stop log manager, close engine, close log) and start; an entry that is no decodable block (the replicator must skip it without acknowledging anything applied but not yet flushed); a quarter of the histories end with late data of an expired family: memory database time-to-live longer than a day, 26 simulated hours pass (the log manager's hourly housekeeping may destroy the expired partition's log), then the process dies. While an operation runs the process may die at a tape-chosen point: before a file-system operation of any kv store (data family, shard index, metadata), at a function entry of the queue / page / replica / tsdb / memdb / kv / version / index packages (probability x20 at commit / acknowledge / sequence functions), i.e. also between data commit, sequence record and log acknowledgement. After every restart the real recovery runs (WriteAheadLogManager.Recovery, replicator rewinds to ack+1), the harness waits for catch-up and reads every cell back through the real query pipeline. Oracle: every message writes 1 into 1-3 (series, slot) cells of a sum field that no other message touches: a cell of a message whose append returned must read exactly 1 (nothing = lost, 2 = applied twice), a cell of an append in flight at the death 0 or 1, no other cell may exist, the series must carry its own tags; right after recovery the log's acknowledged position must not exceed the sequence stored with the flushed data.",
     "fault_kinds": ["crash@fs-write", "crash@fs-sync", "crash@queue", "crash@page", "crash@tsdb", "crash@index", "crash@version", "crash@kv", "crash@memdb", "crash@replica", "clean-restart", "flush-request", "log-gc", "family-expired", "undecodable-log-entry"],
     "real": NODE_REAL + ["replica (write-ahead-log manager, log, partition, local replicator)", "pkg/queue fan-out queue on mapped pages", "tsdb data flush checker and its workers"],
@@ -178,7 +178,7 @@ PROPS["C07"] = {
 PROPS["C03"] = {
     "harness": "mdata", "level": "exploration", "per_proc": 80, "proc_timeout": 900,
     "quick": {"runs": 20000, "budget_s": 300},
-    "thorough": {"runs": 150000, "budget_s": 1700, "shrink_runs": 300, "shrink_timeout": 600},
+    "thorough": {"runs": 400000, "budget_s": 1700, "shrink_runs": 300, "shrink_timeout": 600},
     "rule": "Each run: one data family with the real metric-data merger; 4-12 operations out of flush (a generated file: 1-3 metrics, a subset of six fields of all types sum/min/max/last/first/histogram, slot range narrow / wide / random inside 0..39, 1-6 series out of ids around the 65536 boundaries, per (series, field) optionally no data, per slot optionally no value, integer values) written through the real metricsdata flusher, Family.Compact and the background compaction tick (compaction threshold 0/2/3, max output file size 0/200/1500 bytes so outputs split), optionally a reader task holding a snapshot across the compaction under a seeded schedule. After every operation every block of the current version is decoded with the real reader and compared cell by cell (metric, series, field, slot) with the reference model.",
     "fault_kinds": ["compaction-changed-files"],
     "real": ["tsdb/tblstore/metricsdata (flusher, reader, data scanner, merger, series merger, field reader)", "aggregation/down_sampling_agg", "kv compaction job and compact flusher", "pkg/encoding TSD/XOR/fixed-offset codecs"],
@@ -191,7 +191,7 @@ PROPS["C03"] = {
 PROPS["C04"] = {
     "harness": "mdata", "level": "exploration", "per_proc": 80, "proc_timeout": 900,
     "quick": {"runs": 20000, "budget_s": 300},
-    "thorough": {"runs": 150000, "budget_s": 1700, "shrink_runs": 300, "shrink_timeout": 600},
+    "thorough": {"runs": 400000, "budget_s": 1700, "shrink_runs": 300, "shrink_timeout": 600},
     "rule": "Each run: a source store of 10 s interval (day calculator, segment 2000-01-01 / 03 / 31, families = hours 0, 5, 23) and target stores of 5 min (month calculator) and/or 1 h (year calculator) under the directory names the rollup code parses, all in one store manager. 6-15 operations: flush a generated file (as C03, slots 0..359) into a source family, ForceRollup, two overlapping rollup triggers, background tick (compaction + rollup), compaction of a source family, clean close+reopen; optionally process death at a file-system seam operation during rollup/tick operations followed by restart and rollup again. Whenever no rollup entry is pending, every target family is decoded and compared with the aggregate of exactly those source slots whose timestamps fall into each target slot (computed from timestamps, independently of the calculators); sum fields expose double application as 2x.",
     "fault_kinds": ["crash@write", "crash@sync", "overlapping-rollup-trigger", "close-reopen"],
     "real": ["kv/family_rollup.go, kv/version rollup bookkeeping, kv flusher (rollup registration)", "metricsdata merger in rollup mode + aggregation down sampling", "pkg/timeutil calculators", "kv store manager"],
